@@ -1,7 +1,9 @@
 (* driver command "fsinv" (property C05): replays the case lines of the fs stream through the world model and
    evaluates the proved-sound executable invariant check (InvCheck.inv_check) on the model state after every call.
    case line:   <fs> <os> <umask> <snapmode> | op | op ...      (same syntax as "fs")
-   output line: 1 | 1 | ...   (0 where the check fails; the history stops where "fs" stops it) *)
+   output line: 1 | 1 | ...   (0 where the check fails).  Unlike "fs" the history goes on after a RemoveAll that a
+   permission error interrupted: model and implementation may then hold different trees (Go map order), both
+   must satisfy the invariant. *)
 open Conv
 open Model
 
@@ -21,7 +23,6 @@ let run () =
                  outs := (if inv_check w' then "1" else "0") :: !outs;
                  (match r with
                   | RPanic | RDeadlock -> raise Exit
-                  | RFail EPermDenied when (match c with CRemoveAll _ -> true | _ -> false) -> raise Exit
                   | _ -> ())) ops
              with Exit -> ());
              print_endline (String.concat " | " (List.rev !outs))
